@@ -260,11 +260,57 @@ fn mutate(rng: &mut Rng, stream: &mut Vec<u8>) -> &'static str {
         stream.extend_from_slice(b"\r\n");
         return "empty";
     }
-    match rng.below(14) {
+    match rng.below(17) {
         0 => {
             let i = rng.usize_in(0, stream.len() - 1);
             stream[i] ^= 1 << rng.below(8);
             "bit-flip"
+        }
+        14 => {
+            // a flood of interim responses in front of (or instead of) the real one
+            let unit: &[u8] = *rng.pick(&[
+                &b"HTTP/1.1 100 Continue\r\n\r\n"[..],
+                b"HTTP/1.1 100 Continue\r\nConnection: close\r\n\r\n",
+                b"HTTP/1.1 100 Continue\r\nX: y\r\n\r\n",
+                b"HTTP/1.1 102 Processing\r\n\r\n",
+                b"HTTP/1.1 103 Early Hints\r\nConnection: close\r\nLink: </s>\r\n\r\n",
+                b"HTTP/1.0 100 \r\nConnection: close\r\nConnection: close\r\n\r\n",
+            ]);
+            let n = *rng.pick(&[2usize, 3, 5, 6, 7, 9, 40]);
+            let mut flood = Vec::new();
+            for _ in 0..n {
+                flood.extend_from_slice(unit);
+            }
+            stream.splice(0..0, flood);
+            "flood-interim"
+        }
+        15 => {
+            // the first complete head repeated
+            if let Some(i) = stream.windows(4).position(|w| w == b"\r\n\r\n") {
+                let head = stream[..i + 4].to_vec();
+                if head.len() < 2000 {
+                    let n = *rng.pick(&[2usize, 5, 6, 7, 30]);
+                    let mut flood = Vec::new();
+                    for _ in 0..n {
+                        flood.extend_from_slice(&head);
+                    }
+                    stream.splice(0..0, flood);
+                }
+            }
+            "flood-head"
+        }
+        16 => {
+            // one field line repeated many times
+            if let Some(i) = stream.windows(2).position(|w| w == b"\r\n") {
+                let line: &[u8] = *rng.pick(&[&b"Connection: close\r\n"[..], b"Location: /x\r\n", b"Content-Length: 3\r\n", b"Transfer-Encoding: chunked\r\n", b"Set-Cookie: a=b\r\n"]);
+                let n = *rng.pick(&[2usize, 5, 6, 64, 127, 128, 129, 300]);
+                let mut flood = Vec::new();
+                for _ in 0..n {
+                    flood.extend_from_slice(line);
+                }
+                stream.splice(i + 2..i + 2, flood);
+            }
+            "flood-field"
         }
         1 => {
             let i = rng.usize_in(0, stream.len() - 1);
@@ -505,7 +551,7 @@ impl Property for P {
         "fault_enumeration"
     }
     fn rule(&self) -> String {
-        "fault enumeration into every server-facing call (try_read_100, try_response, read in chunked / length / close framing): (i) every byte string over {0 5 a f ; : SP CR LF x 0xff} up to length L, offered whole and as a growing window; (ii) every sequence of up to K protocol tokens (HTTP/1.1, status codes, CRLF, CR, LF, field names, chunked, close, ...); (iii) every byte value at eight positions where httparse and the http crate could disagree and inside chunk framing; (iv) grammar-aware mutations (bit flips, deletions, duplications, splices, oversize numbers, stray CR/LF, >128 fields, 64 KiB names, 100 KB values, conflicting framing fields, malformed Locations, truncation) of valid exchanges of every request configuration under random schedules; (v) all five close conditions at once. Monitors on every call: panic capture, in-crate loop tick budget (bounded restatement of 'hangs'), consumed <= offered, produced <= space, produced bytes an in-order copy of consumed bytes (equality for length/close framing), and state-advancing calls afterwards must not panic. class = call x Ok/Err variant, mutation kind, outcome.".into()
+        "fault enumeration into every server-facing call (try_read_100, try_response, read in chunked / length / close framing): (i) every byte string over {0 5 a f ; : SP CR LF x 0xff} up to length L, offered whole and as a growing window; (ii) every sequence of up to K protocol tokens (HTTP/1.1, status codes, CRLF, CR, LF, field names, chunked, close, ...); (iii) every byte value at eight positions where httparse and the http crate could disagree and inside chunk framing; (iv) grammar-aware mutations (bit flips, deletions, duplications, splices, oversize numbers, stray CR/LF, >128 fields, 64 KiB names, 100 KB values, conflicting framing fields, malformed Locations, truncation, floods of interim responses / repeated heads / repeated field lines) of valid exchanges of every request configuration under random schedules; (v) all five close conditions at once. Monitors on every call: panic capture, in-crate loop tick budget (bounded restatement of 'hangs'), consumed <= offered, produced <= space, produced bytes an in-order copy of consumed bytes (equality for length/close framing), and state-advancing calls afterwards must not panic. class = call x Ok/Err variant, mutation kind, outcome.".into()
     }
     fn assumptions(&self) -> Vec<String> {
         vec![
@@ -570,7 +616,7 @@ impl Property for P {
         for t in ["Await100", "Response", "Chunked"] {
             v.push((format!("{}/Err/*", t), 100));
         }
-        for m in ["bit-flip", "deletion", "duplication", "splice", "oversize-number", "stray-crlf", "many-fields", "truncation", "huge-name", "huge-value", "chunk-line-games", "conflicting-fields"] {
+        for m in ["flood-interim", "flood-head", "flood-field", "bit-flip", "deletion", "duplication", "splice", "oversize-number", "stray-crlf", "many-fields", "truncation", "huge-name", "huge-value", "chunk-line-games", "conflicting-fields"] {
             v.push((format!("mutation/{}", m), 100));
         }
         v.push(("outcome/completed".into(), 100));
